@@ -668,7 +668,9 @@ func builtin_ord(self, obj py.Object) (py.Object, error) {
 	case py.String:
 		size = len(x)
 		rune, runeSize := utf8.DecodeRuneInString(string(x))
-		if size == runeSize && rune != utf8.RuneError {
+		// an invalid encoding decodes as RuneError with size 1
+		// (a real U+FFFD has size 3)
+		if size == runeSize && (rune != utf8.RuneError || runeSize == 3) {
 			return py.Int(rune), nil
 		}
 	//case py.ByteArray:
